@@ -88,11 +88,11 @@ class Ctx:
     # ---- trace validation
     def validate_traces(self, module: str, traces: list[list[dict]], *, constants=None, invariants=(),
                         properties=(), metas: list | None = None, label: str = "", shards=16,
-                        dfs=False, sig=None, timeout=3600) -> TR.BatchResult:
+                        dfs=False, sig=None, timeout=3600, length_of=len) -> TR.BatchResult:
         """metas[i] is what is needed to re-execute trace i (schedule etc.).  sig(meta, verdict) may
         return a stable signature for known-finding matching."""
         res = TR.validate(module, traces, workdir=self.workdir, constants=constants, invariants=invariants,
-                          properties=properties, shards=shards, dfs=dfs, timeout=timeout)
+                          properties=properties, shards=shards, dfs=dfs, timeout=timeout, length_of=length_of)
         self.states += res.distinct
         self.transitions += res.generated
         self.traces_validated += len(traces)
@@ -103,7 +103,7 @@ class Ctx:
         for v in res.rejected:
             meta = metas[v.index] if metas else None
             tr = traces[v.index]
-            ev = tr[v.stuck_at - 1] if v.stuck_at and 0 < v.stuck_at <= len(tr) else None
+            ev = tr[v.stuck_at - 1] if isinstance(tr, list) and v.stuck_at and 0 < v.stuck_at <= len(tr) else None
             s = sig(meta, v, tr) if sig else None
             if s is None:
                 s = f"trace:{module}:{label}:" + hashlib.sha1(
@@ -114,7 +114,7 @@ class Ctx:
             self.violations.append(Violation(s, what, {
                 "kind": "trace", "module": module, "label": label, "meta": meta, "stuck_at": v.stuck_at,
                 "invariant": v.invariant, "detail": v.detail, "unexplained_event": ev,
-                "last_explained_event": tr[v.stuck_at - 2] if v.stuck_at and v.stuck_at >= 2 else None,
+                "last_explained_event": tr[v.stuck_at - 2] if isinstance(tr, list) and v.stuck_at and v.stuck_at >= 2 else None,
                 "trace": tr, "constants": constants or {}}))
         return res
 
